@@ -4,7 +4,7 @@
 # and run the property's check against the mutated tree.
 ID=$1; K=$2; shift 2
 SRC=/tmp/seedout-$ID/$K
-case "$K" in r2-*) SRC=/tmp/seedout2-$ID/${K#r2-};; esac
+case "$K" in r2-*) SRC=/tmp/seedout2-$ID/${K#r2-};; r3-*) SRC=/tmp/seedout3-$ID/${K#r3-};; esac
 [ -d "$SRC" ] || SRC=/verif/seeded/$ID-$K
 WT=/tmp/sv-$ID-$K
 export PATH="$(go env GOMODCACHE)/golang.org/toolchain@v0.0.1-go1.24.0.linux-amd64/bin:$PATH" GOTOOLCHAIN=local GOFLAGS=-mod=mod GOPROXY=off GOSUMDB=off
